@@ -1,12 +1,12 @@
 """C15 - shape operations, constructors, the matrix invariant (DESIGN 4/C15)."""
 LEVEL = "model_checking"
-RULE = ("P1: TLC enumerates the bounded state graph of spec/Arrays.tla (start shapes 1..K x 1..K, programs of "
-        "mutating calls up to MaxDepth, size <= MaxSize) checking Inv_WF / Inv_Ref / Inv_Post in every state; "
-        "P2: per distinct state the outcome of EVERY offered action (all argument values in range and just outside) "
-        "is emitted and replayed into the real Matrix (fields, returned value, panic) - one comparison per transition; "
-        "constructors/predicates: spec/Ctors.tla cases replayed likewise; "
-        "P3: seeded random programs of 1..40 calls on 1..8 x 1..8 matrices recorded from the real object and "
-        "validated step by step by TLC against Trace_Arrays. A case class = (call, shape class, argument class); "
+RULE = ("P1: TLC enumerates the bounded state graph of spec/Arrays.tla (start shapes 1..K x 1..K, programs of mutating "
+        "calls up to MaxDepth, size <= MaxSize) checking Inv_WF / Inv_Ref / Inv_Post in every state; P2: per distinct "
+        "state the outcome of EVERY offered action (all argument values in range and just outside) is emitted and "
+        "replayed into the real Matrix (fields, returned value, panic) - one comparison per transition; "
+        "constructors/predicates: spec/Ctors.tla cases replayed likewise (arange also with the stop value just above a "
+        "grid point); P3: seeded random programs of 1..40 calls on 1..8 x 1..8 matrices recorded from the real object "
+        "and validated step by step by TLC against Trace_Arrays. A case class = (call, shape class, argument class); "
         "distinct_nontrivial counts distinct classes exercised.")
 ASSUMPTIONS = ["integer-valued entries (exact in f64); dimensions >= 1, repeat counts >= 1",
                "a rejected call must leave the matrix unchanged (reference model semantics)",
